@@ -19,6 +19,7 @@ type vfPairOpt struct {
 	CliAct, SrvAct func(c *Conn) error
 	Horizon        time.Duration
 	Prepare        func(sim *vfDSim, cli, srv *Conn)
+	SrvAddr string // address of the server end (the client's session cache is keyed by it)
 	// KeepOpen exists for parity with the stream stack's runner (datagram endpoints are never closed by the runner).
 	KeepOpen bool
 	// FaultsDuringApp keeps the fault plan active after both handshakes completed.
@@ -43,6 +44,9 @@ const vfStack = "dtlcp"
 func vfRunPair(ccfg, scfg *Config, opt vfPairOpt) *vfPair {
 	sim := vfNewDSim(opt.Faults, opt.Tie)
 	sim.hook = opt.Hook
+	if opt.SrvAddr != "" {
+		sim.ends[1].addr = vfDAddr(opt.SrvAddr)
+	}
 	cc, sc := ccfg.Clone(), scfg.Clone()
 	cc.NewTimer, sc.NewTimer = sim.newTimer, sim.newTimer
 	cli := Client(sim.ends[0], sim.ends[1].addr, cc)
